@@ -25,7 +25,7 @@ int main(int argc, char** argv) {
     begin_case(s);
     ND_CASE_GUARD();
     Rng r(s);
-    mg::GenOpts go;
+    mg::GenOpts go; go.flex_chance = 0.12;
     go.allow_rk4 = true;
     std::string mdesc;
     mjModel* m = sup.get(r, go, &mdesc);
